@@ -23,6 +23,9 @@ class Verifier(ExprMixin, StmtMixin, CallMixin, LibMixin, FoldMixin, Executor):
         self.pending_label = None
         self.bounded = set()
         self.summarised = set()
+        self.events_seen = set()
+        self.arg_types = {}
+        self.events_named = set()
         self.in_loop = 0
         self.nomerge = False
         self.acc_reg = {}
@@ -175,12 +178,14 @@ class Verifier(ExprMixin, StmtMixin, CallMixin, LibMixin, FoldMixin, Executor):
                 rets.append((o_, [o_.vars[o] for o in fr.named_results]))
         if not rets:
             return self.obligations
+        self.rets_for_events = rets
         split = c is not None and "paths" in c.flags and not fr.defers
         if split:
             self.frame_spec = None
             unbound = set()
             for (s_, v_) in rets:
                 self.final_state, self.final_results = s_, v_
+                self.check_emits(func, s_)
                 for cl in c.of("ensures"):
                     n0 = len(self.facts)
                     try:
@@ -213,6 +218,7 @@ class Verifier(ExprMixin, StmtMixin, CallMixin, LibMixin, FoldMixin, Executor):
             vals = [merged.vars[o] for o in fr.named_results]
         self.final_state = merged
         self.final_results = vals
+        self.check_emits(func, merged)
         if c is not None:
             for cl in c.of("ensures"):
                 n0 = len(self.facts)
@@ -230,6 +236,31 @@ class Verifier(ExprMixin, StmtMixin, CallMixin, LibMixin, FoldMixin, Executor):
                 self.oblige_final(merged, "ensures", cl["label"], g, cl.get("ln"), cl["text"], cl.get("canary"))
                 self.obligations[-1].extra = extra
         return self.obligations
+
+    def tracked_events(self):
+        """Operations that some contract of the loaded packages declares in an `emits` list: these are the ones whose
+        every occurrence must be declared (logging, clock reads etc. are not tracked)."""
+        t = getattr(self.prog, "_tracked", None)
+        if t is None:
+            t = set()
+            for pkg in self.prog.packages.values():
+                for c in pkg.contracts.values():
+                    txt = (c.flags.get("emits") or "")
+                    t |= set(x.strip() for x in txt.split(",") if x.strip())
+            self.prog._tracked = t
+        return t
+
+    def check_emits(self, func, st):
+        """A function that declares `emits` performs no other tracked operation (so callers may rely on the list)."""
+        c = func.contract
+        if c is None or "emits" not in c.flags:
+            return
+        allowed = set(self.contract_emits(func))
+        for key, val in sorted(st.ghost.items(), key=lambda kv: str(kv[0])):
+            if isinstance(key, str) and key.startswith("ev:") and key[3:] not in allowed and z3.is_expr(val):
+                if key[3:] in self.tracked_events():
+                    self.oblige_final(st, "emits", "only-declared:" + key[3:], val == z3.BitVecVal(0, 64), 0,
+                                      "operation %s is performed but not declared in `emits`" % key[3:])
 
     def oblige_final(self, st, kind, label, goal, ln, text, canary=False):
         name = "%s:%s:%s" % (self.prog.short(self.cur_func.full), kind, label)
